@@ -655,4 +655,125 @@ theorem C03_calculate_output_dispatch (val : Period → Int) (store : Bool) (u :
 example : calcOutput exampleVal true .month (some .add) (.period ⟨.year, ⟨2020, 1, 1⟩, 1⟩) = .ok 114760 := by
   decide +kernel
 
+/-! ## beyond the same-family pairs: days tile every period; ADD is coherent across levels -/
+
+/-- A variable defined per day, summed over ANY dated period — also a week or weekday period, which
+    days tile although they belong to the other calendar family: when ADD returns, it returns the sum
+    of the variable over the consecutive one-day pieces that cover exactly the days of the period.
+    (The same holds for a per-`weekday` variable over month, week, day and weekday periods.) -/
+theorem C03_add_days_any_unit (val : Period → Int) (store : Bool) (u : DUnit) (p : Period) (hp : p.WF)
+    (hu : u = .day ∨ (u = .weekday ∧ p.unit ≠ .year))
+    (r : Int) (h : calcAdd val store u p = .ok r) :
+    ∃ qs, p.subperiods u = .ok qs ∧ Tiles qs p.lo p.hi ∧ (∀ q ∈ qs, q.unit = u ∧ q.size = 1) ∧
+      r = (qs.map val).sum := by
+  have hne := hp.1
+  have hue : u ≠ .eternity := by rcases hu with hu | ⟨hu, _⟩ <;> rw [hu] <;> decide
+  have hw : ¬ unitWeight u > unitWeight p.unit := by
+    intro hw
+    obtain ⟨e, he⟩ := calcAdd_guard_weight val store u p hw
+    rw [he] at h; cases h
+  rw [calcAdd_pass val store u p hw hue hne] at h
+  cases hq : p.subperiods u with
+  | error e => rw [hq] at h; cases h
+  | ok qs =>
+    rw [hq] at h; injection h with h
+    obtain ⟨ht, hq1⟩ := C04_subperiods_days_any_unit p u hp hu qs hq
+    exact ⟨qs, rfl, ht, hq1, h.symm⟩
+
+example : calcAdd exampleVal true .day ⟨.week, ⟨2020, 12, 28⟩, 1⟩ = .ok 68327 := by decide +kernel
+
+/-- the sub-sums of an ADD over a list of periods, with the day pieces each one was summed over -/
+theorem add_pieces (val : Period → Int) (store : Bool) : ∀ (ms : List Period) (rs : List Int),
+    (∀ m ∈ ms, m.WF) → ms.mapM (calcAdd val store .day) = .ok rs →
+    ∃ dss, Piecewise (fun m ds => m.subperiods .day = .ok ds) ms dss ∧ rs.sum = (dss.flatten.map val).sum := by
+  intro ms
+  induction ms with
+  | nil =>
+    intro rs _ h
+    simp only [List.mapM_nil, pure, Except.pure] at h
+    injection h with h; subst h
+    exact ⟨[], trivial, rfl⟩
+  | cons m ms ih =>
+    intro rs hwf h
+    simp only [List.mapM_cons] at h
+    cases hm : calcAdd val store .day m with
+    | error e => rw [hm] at h; cases h
+    | ok rm =>
+      rw [hm] at h
+      simp only [bind, Except.bind] at h
+      cases hr : ms.mapM (calcAdd val store .day) with
+      | error e => rw [hr] at h; cases h
+      | ok rest =>
+        rw [hr] at h
+        simp only [pure, Except.pure] at h
+        injection h with h; subst h
+        obtain ⟨ds, hds, _, _, hsum⟩ := C03_add_days_any_unit val store .day m (hwf m List.mem_cons_self) (Or.inl rfl) rm hm
+        obtain ⟨dss, hP, hS⟩ := ih rest (fun x hx => hwf x (List.mem_cons_of_mem _ hx)) hr
+        refine ⟨ds :: dss, ⟨hds, hP⟩, ?_⟩
+        simp only [List.sum_cons, List.flatten_cons, List.map_append, List.sum_append, hsum, hS]
+
+/-- ADD is coherent across levels: a per-day variable summed over a year (or several months) is the sum,
+    month by month, of the same variable summed over each month — the days of the months are exactly
+    the days of the year (`C04_subperiods_transitive`). -/
+theorem C03_add_nested (val : Period → Int) (store : Bool) (p : Period) (hp : p.WF)
+    (hu : p.unit = .year ∨ p.unit = .month) (hal : p.start.d = 1)
+    (ms : List Period) (hm : p.subperiods .month = .ok ms)
+    (rs : List Int) (hrs : ms.mapM (calcAdd val store .day) = .ok rs)
+    (r : Int) (h : calcAdd val store .day p = .ok r) : r = rs.sum := by
+  obtain ⟨ds, hds, _, _, hsum⟩ := C03_add_days_any_unit val store .day p hp (Or.inl rfl) r h
+  have hpieces := subperiods_month_pieces p hp.2.1 ms hm
+  have hwf : ∀ m ∈ ms, m.WF := fun m hmm => by
+    obtain ⟨h1, h2, h3⟩ := hpieces m hmm
+    exact ⟨by rw [h1]; decide, h3, by omega⟩
+  obtain ⟨dss, hP, hS⟩ := add_pieces val store ms rs hwf hrs
+  have := (C04_subperiods_transitive p hp hu hal ms hm dss hP).2.2 ds hds
+  rw [hsum, hS, this]
+
+example : (Period.mk .month ⟨2020, 2, 1⟩ 2).subperiods .month = .ok [⟨.month, ⟨2020, 2, 1⟩, 1⟩, ⟨.month, ⟨2020, 3, 1⟩, 1⟩] ∧
+    [Period.mk .month ⟨2020, 2, 1⟩ 1, ⟨.month, ⟨2020, 3, 1⟩, 1⟩].mapM (calcAdd exampleVal true .day) = .ok [273789, 293601] ∧
+    calcAdd exampleVal true .day ⟨.month, ⟨2020, 2, 1⟩, 2⟩ = .ok (273789 + 293601) := by
+  refine ⟨?_, ?_, ?_⟩ <;> decide +kernel
+
+/-- A variable of any dated definition unit divided over ONE DAY — also a per-week variable, which lies
+    in the other calendar family: when DIVIDE returns, it returns the variable's value for `c`, the
+    definition-unit-long period aligned to its unit that contains that day, divided by the number of days
+    of `c` (7 for a week, 28–31 for a month, 365/366 for a year, 1 for a day or weekday). -/
+theorem C03_divide_over_day_any_unit (val : Period → Int) (store : Bool) (u : DUnit) (p : Period) (hp : p.WF)
+    (hd : p.unit = .day) (r : Rat) (h : calcDivide val store u p = .ok r) :
+    ∃ (c : Period) (n : Int), enclosing u p = .ok c ∧ c.WF ∧ c.unit = u ∧ c.size = 1 ∧ AlignedTo c.start u ∧
+      c.lo ≤ p.lo ∧ p.hi ≤ c.hi ∧ n = c.hi - c.lo + 1 ∧ 1 ≤ n ∧ r = (val c : Rat) / (n : Rat) ∧
+      (u = .week → n = 7) := by
+  obtain ⟨hne, hv, hsz⟩ := hp
+  have hs : p.size = 1 := by
+    by_cases hs : p.size = 1
+    · exact hs
+    · obtain ⟨e, he⟩ := calcDivide_guard val store u p (Or.inr (Or.inl hs)); rw [he] at h; cases h
+  have hw : ¬ unitWeight u < unitWeight p.unit := by
+    intro hw
+    obtain ⟨e, he⟩ := calcDivide_guard val store u p (Or.inl hw); rw [he] at h; cases h
+  have hu : u ≠ .eternity := by
+    intro hu
+    obtain ⟨e, he⟩ := calcDivide_guard val store u p (Or.inr (Or.inr (Or.inl hu))); rw [he] at h; cases h
+  rw [calcDivide_pass val store u p hw hs hu hne] at h
+  cases hc : enclosing u p with
+  | error e => rw [hc] at h; cases h
+  | ok c =>
+    rw [hc] at h; simp only at h
+    cases hn : denominator p.unit c with
+    | error e => rw [hn] at h; cases h
+    | ok n =>
+      rw [hn] at h; simp only at h
+      injection h with h
+      obtain ⟨hcwf, hcu, hcs, hcal, hclo, hchi⟩ := enclosing_spec u p c hv hu hc
+      have hlohi := lo_le_hi c hcwf
+      rw [hd] at hn
+      have hdays : n = c.hi - c.lo + 1 := (C04_days_count c hcwf n).2 hn
+      have hphi : p.hi = p.lo := by simp only [Period.hi, Period.lo, hd, hs]; omega
+      refine ⟨c, n, rfl, hcwf, hcu, hcs, hcal, hclo, by omega, hdays, by omega, h.symm, ?_⟩
+      intro hwk
+      have := (C04_size_in_smaller_unit c hcwf).2.2.1 (by rw [hcu, hwk])
+      omega
+
+example : calcDivide exampleVal true .week ⟨.day, ⟨2021, 1, 3⟩, 1⟩ = .ok 1394 := by decide +kernel
+
 end OFCore
